@@ -410,15 +410,20 @@ Proof.
     apply stars_loop_fuel; [exact IH | lia].
 Qed.
 
-Theorem exports_terminate : forall m, has_key m (sw_mods w) = true -> exports_of w m <> None.
+Lemma exports_inner_top : forall m, has_key m (sw_mods w) = true ->
+  exports_inner (length (sw_mods w)) w m [] <> None.
 Proof.
-  intros m Hk. unfold exports_of.
-  destruct (exports_inner (length (sw_mods w)) w m []) as [[r v']|] eqn:E; [discriminate|].
-  exfalso. apply (exports_inner_fuel (length (sw_mods w)) m []); [right; apply has_key_In; exact Hk | | exact E].
+  intros m Hk. apply exports_inner_fuel; [right; apply has_key_In; exact Hk|].
   unfold unseen. cbn [mem existsb negb].
   assert (Hf : forall l : list N, filter (fun _ : N => true) l = l).
   { induction l as [|x l IHl]; cbn [filter]; [reflexivity | rewrite IHl; reflexivity]. }
   rewrite Hf. pose proof (dedup_length mod_keys) as Hd. unfold mod_keys in *. rewrite map_length in Hd. exact Hd.
+Qed.
+
+Theorem exports_terminate : forall m, has_key m (sw_mods w) = true -> exports_of w m <> None.
+Proof.
+  intros m Hk. unfold exports_of. pose proof (exports_inner_top m Hk) as H.
+  destruct (exports_inner (length (sw_mods w)) w m []) as [[r v']|]; [discriminate | exfalso; apply H; reflexivity].
 Qed.
 
 (* the decision procedure run on the implementation's name list *)
@@ -685,3 +690,308 @@ Proof.
     destruct star; apply N.eqb_eq in H; exact H.
   - apply has_key_In. exact H.
 Qed.
+
+(* ------------------------------------------------------------------ *)
+(* Part D: go-to-definition, fragment without qualified names          *)
+
+Lemma ueqb_eq : forall a b, ueqb a b = true <-> a = b.
+Proof.
+  intros [a1 a2] [b1 b2]. unfold ueqb. cbn [fst snd]. rewrite andb_true_iff. rewrite !N.eqb_eq.
+  split; [intros [H1 H2]; subst; reflexivity | intro H; inversion H; split; reflexivity].
+Qed.
+
+Lemma umem_In : forall u l, umem u l = true <-> In u l.
+Proof.
+  intros u l. unfold umem. rewrite existsb_exists. split.
+  - intros [x [Hx He]]. apply ueqb_eq in He. subst. exact Hx.
+  - intro H. exists u. split; [exact H | apply ueqb_eq; reflexivity].
+Qed.
+
+Lemma umem_false_In : forall u l, umem u l = false <-> ~ In u l.
+Proof.
+  intros u l. rewrite <- umem_In. destruct (umem u l); split; intro H;
+    try reflexivity; try discriminate; try (intro H'; discriminate); exfalso; apply H; reflexivity.
+Qed.
+
+Definition unseen2 (U v : list usym) : nat := length (filter (fun u => negb (umem u v)) U).
+
+Lemma unseen2_incl : forall U a b, incl a b -> (unseen2 U b <= unseen2 U a)%nat.
+Proof.
+  intros U a b Hi. unfold unseen2. induction U as [|u l IH]; cbn [filter length]; [lia|].
+  destruct (umem u b) eqn:Eb; destruct (umem u a) eqn:Ea; cbn [negb length]; try lia.
+  apply umem_In in Ea. apply Hi in Ea. apply umem_In in Ea. rewrite Ea in Eb. discriminate.
+Qed.
+
+Lemma unseen2_cons : forall U v y, In y U -> ~ In y v -> (unseen2 U (y :: v) < unseen2 U v)%nat.
+Proof.
+  intros U v y Hy Hn. unfold unseen2.
+  assert (Hle : forall l, (length (filter (fun u => negb (umem u (y :: v))) l)
+                           <= length (filter (fun u => negb (umem u v)) l))%nat).
+  { intro l. apply (unseen2_incl l v (y :: v)). intros x Hx. right. exact Hx. }
+  induction U as [|u l IH]; [destruct Hy|].
+  cbn [filter]. destruct Hy as [Hy|Hy].
+  - subst u. assert (E1 : umem y (y :: v) = true) by (apply umem_In; left; reflexivity).
+    assert (E2 : umem y v = false) by (apply umem_false_In; exact Hn).
+    rewrite E1, E2. cbn [negb length]. specialize (Hle l). lia.
+  - specialize (IH Hy).
+    destruct (umem u (y :: v)) eqn:E1; destruct (umem u v) eqn:E2; cbn [negb length]; try lia.
+    apply umem_In in E2. assert (Hc : In u (y :: v)) by (right; exact E2).
+    apply umem_In in Hc. rewrite Hc in E1. discriminate.
+Qed.
+
+Section Goto.
+Variable w : sworld.
+
+Notation rec_t := (N -> N -> list usym -> option (list gres * list usym)).
+
+(* a leaf of the path tree: an existing Definition declaration (or the FileRef Star
+   declaration of an ExportStar definition), or an explicit unresolved marker *)
+Definition leaf_ok (g : gres) : Prop :=
+  match g with
+  | GDef m s i star =>
+      exists sy d, find_sym (sm_tab (get_mod w m)) s = Some sy /\
+                   nth_error (s_decls sy) (N.to_nat i) = Some d /\
+                   d_kind d = (if star then 4 else 0)
+  | GUnres _ _ => True
+  end.
+
+Definition rec_mono (rec : rec_t) : Prop :=
+  forall m s v ls v', rec m s v = Some (ls, v') -> incl v v'.
+Definition rec_total (f : nat) (rec : rec_t) : Prop :=
+  forall m s v, (unseen2 (universe w) v <= f)%nat -> rec m s v <> None.
+Definition rec_ok (rec : rec_t) : Prop :=
+  forall m s v ls v', rec m s v = Some (ls, v') -> Forall leaf_ok ls.
+
+Lemma fes_mono : forall rec, rec_mono rec -> forall dep name stars v ls v',
+  file_export_stars rec w dep name stars v = Some (ls, v') -> incl v v'.
+Proof.
+  intros rec Hm dep name. induction stars as [|[text tgt] rest IH]; intros v ls v' H; cbn [file_export_stars] in H.
+  - inversion H; subst. intros x Hx; exact Hx.
+  - destruct (option_bind tgt (spec_to_module w)) as [m'|]; [|apply (IH _ _ _ H)].
+    destruct (exports_inner (length (sw_mods w)) w m' []) as [[inner vi]|]; [|discriminate].
+    destruct (lookup name (resolved inner)) as [it|]; [|apply (IH _ _ _ H)].
+    destruct (rec (fst (item_export it)) (snd (item_export it)) v) as [[paths v1]|] eqn:Er; [|discriminate].
+    pose proof (Hm _ _ _ _ _ Er) as H1.
+    destruct paths as [|p ps].
+    + intros x Hx. apply (IH _ _ _ H). apply H1. exact Hx.
+    + inversion H; subst. exact H1.
+Qed.
+
+Lemma fes_ok : forall rec, rec_ok rec -> forall dep name stars v ls v',
+  file_export_stars rec w dep name stars v = Some (ls, v') -> Forall leaf_ok ls.
+Proof.
+  intros rec Hk dep name. induction stars as [|[text tgt] rest IH]; intros v ls v' H; cbn [file_export_stars] in H.
+  - inversion H; subst. constructor; [exact I | constructor].
+  - destruct (option_bind tgt (spec_to_module w)) as [m'|]; [|apply (IH _ _ _ H)].
+    destruct (exports_inner (length (sw_mods w)) w m' []) as [[inner vi]|]; [|discriminate].
+    destruct (lookup name (resolved inner)) as [it|]; [|apply (IH _ _ _ H)].
+    destruct (rec (fst (item_export it)) (snd (item_export it)) v) as [[paths v1]|] eqn:Er; [|discriminate].
+    pose proof (Hk _ _ _ _ _ Er) as H1.
+    destruct paths as [|p ps].
+    + apply (IH _ _ _ H).
+    + inversion H; subst. exact H1.
+Qed.
+
+Lemma fes_total : forall f rec, rec_mono rec -> rec_total f rec -> forall dep name stars v,
+  (unseen2 (universe w) v <= f)%nat -> file_export_stars rec w dep name stars v <> None.
+Proof.
+  intros f rec Hm Ht dep name. induction stars as [|[text tgt] rest IH]; intros v Hle; cbn [file_export_stars].
+  - discriminate.
+  - destruct (option_bind tgt (spec_to_module w)) as [m'|] eqn:Et; [|apply IH; exact Hle].
+    destruct tgt as [sp|]; cbn [option_bind] in Et; [|discriminate].
+    assert (Hk : has_key m' (sw_mods w) = true).
+    { apply has_key_In. apply (spec_to_module_key w sp m' Et). }
+    pose proof (exports_inner_top w m' Hk) as Htop.
+    destruct (exports_inner (length (sw_mods w)) w m' []) as [[inner vi]|]; [|exfalso; apply Htop; reflexivity].
+    destruct (lookup name (resolved inner)) as [it|]; [|apply IH; exact Hle].
+    destruct (rec (fst (item_export it)) (snd (item_export it)) v) as [[paths v1]|] eqn:Er.
+    + destruct paths as [|p ps]; [|discriminate].
+      apply IH. pose proof (unseen2_incl (universe w) v v1 (Hm _ _ _ _ _ Er)). lia.
+    + exfalso. exact (Ht _ _ _ Hle Er).
+Qed.
+
+(* one declaration of the loop: the `step` of decls_loop *)
+Definition decl_step (rec : rec_t) (m s : N) (d : sdecl) (i : N) (visited : list usym) :=
+  if N.eqb (d_kind d) 0 then Some ([GDef m s i false], visited)
+  else if N.eqb (d_kind d) 4 then Some ([GDef m s i true], visited)
+  else if N.eqb (d_kind d) 1 then
+    match d_target d with
+    | Some s' => rec m s' visited
+    | None => Some ([], visited)
+    end
+  else if N.eqb (d_kind d) 3 then
+    match option_bind (d_file d) (spec_to_module w) with
+    | None => Some ([GUnres m 1], visited)
+    | Some dep =>
+        match own_export_symbol w dep (d_import d) with
+        | Some es => rec dep es visited
+        | None => file_export_stars rec w dep (d_import d) (sm_stars (get_mod w dep)) visited
+        end
+    end
+  else Some ([GUnres m NOT_MODELLED], visited).
+
+Lemma decls_loop_unfold : forall rec m s d rest i v,
+  decls_loop rec w m s (d :: rest) i v =
+  match decl_step rec m s d i v with
+  | None => None
+  | Some (ls, v1) =>
+      match decls_loop rec w m s rest (i + 1) v1 with
+      | None => None
+      | Some (ls', v2) => Some (ls ++ ls', v2)
+      end
+  end.
+Proof. intros. reflexivity. Qed.
+
+Lemma step_mono : forall rec, rec_mono rec -> forall m s d i v ls v',
+  decl_step rec m s d i v = Some (ls, v') -> incl v v'.
+Proof.
+  intros rec Hm m s d i v ls v' H. unfold decl_step in H.
+  destruct (N.eqb (d_kind d) 0); [inversion H; subst; intros x Hx; exact Hx|].
+  destruct (N.eqb (d_kind d) 4); [inversion H; subst; intros x Hx; exact Hx|].
+  destruct (N.eqb (d_kind d) 1).
+  { destruct (d_target d) as [s'|]; [apply (Hm _ _ _ _ _ H) | inversion H; subst; intros x Hx; exact Hx]. }
+  destruct (N.eqb (d_kind d) 3); [|inversion H; subst; intros x Hx; exact Hx].
+  destruct (option_bind (d_file d) (spec_to_module w)) as [dep|]; [|inversion H; subst; intros x Hx; exact Hx].
+  destruct (own_export_symbol w dep (d_import d)) as [es|]; [apply (Hm _ _ _ _ _ H) | apply (fes_mono rec Hm _ _ _ _ _ _ H)].
+Qed.
+
+Lemma step_total : forall f rec, rec_mono rec -> rec_total f rec -> forall m s d i v,
+  (unseen2 (universe w) v <= f)%nat -> decl_step rec m s d i v <> None.
+Proof.
+  intros f rec Hm Ht m s d i v Hle. unfold decl_step.
+  destruct (N.eqb (d_kind d) 0); [discriminate|].
+  destruct (N.eqb (d_kind d) 4); [discriminate|].
+  destruct (N.eqb (d_kind d) 1).
+  { destruct (d_target d) as [s'|]; [apply Ht; exact Hle | discriminate]. }
+  destruct (N.eqb (d_kind d) 3); [|discriminate].
+  destruct (option_bind (d_file d) (spec_to_module w)) as [dep|]; [|discriminate].
+  destruct (own_export_symbol w dep (d_import d)) as [es|]; [apply Ht; exact Hle | apply (fes_total f rec Hm Ht); exact Hle].
+Qed.
+
+Lemma step_ok : forall rec, rec_ok rec -> forall m s sy d i v ls v',
+  find_sym (sm_tab (get_mod w m)) s = Some sy ->
+  nth_error (s_decls sy) (N.to_nat i) = Some d ->
+  decl_step rec m s d i v = Some (ls, v') -> Forall leaf_ok ls.
+Proof.
+  intros rec Hk m s sy d i v ls v' Hf Hn H. unfold decl_step in H.
+  destruct (N.eqb (d_kind d) 0) eqn:E0.
+  { inversion H; subst. constructor; [|constructor]. cbn [leaf_ok]. exists sy, d.
+    apply N.eqb_eq in E0. repeat split; assumption. }
+  destruct (N.eqb (d_kind d) 4) eqn:E4.
+  { inversion H; subst. constructor; [|constructor]. cbn [leaf_ok]. exists sy, d.
+    apply N.eqb_eq in E4. repeat split; assumption. }
+  destruct (N.eqb (d_kind d) 1).
+  { destruct (d_target d) as [s'|]; [apply (Hk _ _ _ _ _ H) | inversion H; subst; constructor]. }
+  destruct (N.eqb (d_kind d) 3); [|inversion H; subst; constructor; [exact I | constructor]].
+  destruct (option_bind (d_file d) (spec_to_module w)) as [dep|]; [|inversion H; subst; constructor; [exact I | constructor]].
+  destruct (own_export_symbol w dep (d_import d)) as [es|]; [apply (Hk _ _ _ _ _ H) | apply (fes_ok rec Hk _ _ _ _ _ _ H)].
+Qed.
+
+Lemma dl_mono : forall rec, rec_mono rec -> forall m s ds i v ls v',
+  decls_loop rec w m s ds i v = Some (ls, v') -> incl v v'.
+Proof.
+  intros rec Hm m s. induction ds as [|d rest IH]; intros i v ls v' H.
+  - cbn [decls_loop] in H. inversion H; subst. intros x Hx; exact Hx.
+  - rewrite decls_loop_unfold in H.
+    destruct (decl_step rec m s d i v) as [[l1 v1]|] eqn:Es; [|discriminate].
+    destruct (decls_loop rec w m s rest (i + 1) v1) as [[l2 v2]|] eqn:El; [|discriminate].
+    inversion H; subst. intros x Hx. apply (IH _ _ _ _ El). apply (step_mono rec Hm _ _ _ _ _ _ _ Es). exact Hx.
+Qed.
+
+Lemma dl_total : forall f rec, rec_mono rec -> rec_total f rec -> forall m s ds i v,
+  (unseen2 (universe w) v <= f)%nat -> decls_loop rec w m s ds i v <> None.
+Proof.
+  intros f rec Hm Ht m s. induction ds as [|d rest IH]; intros i v Hle.
+  - cbn [decls_loop]. discriminate.
+  - rewrite decls_loop_unfold.
+    destruct (decl_step rec m s d i v) as [[l1 v1]|] eqn:Es;
+      [|exfalso; exact (step_total f rec Hm Ht m s d i v Hle Es)].
+    assert (Hle1 : (unseen2 (universe w) v1 <= f)%nat).
+    { pose proof (unseen2_incl (universe w) v v1 (step_mono rec Hm _ _ _ _ _ _ _ Es)). lia. }
+    destruct (decls_loop rec w m s rest (i + 1) v1) as [[l2 v2]|] eqn:El; [discriminate|].
+    exfalso. exact (IH (i + 1) v1 Hle1 El).
+Qed.
+
+Lemma dl_ok : forall rec, rec_ok rec -> forall m s sy,
+  find_sym (sm_tab (get_mod w m)) s = Some sy ->
+  forall ds i v ls v',
+  (forall k d, nth_error ds k = Some d -> nth_error (s_decls sy) (N.to_nat i + k) = Some d) ->
+  decls_loop rec w m s ds i v = Some (ls, v') -> Forall leaf_ok ls.
+Proof.
+  intros rec Hk m s sy Hf. induction ds as [|d rest IH]; intros i v ls v' Hnth H.
+  - cbn [decls_loop] in H. inversion H; subst. constructor.
+  - rewrite decls_loop_unfold in H.
+    destruct (decl_step rec m s d i v) as [[l1 v1]|] eqn:Es; [|discriminate].
+    destruct (decls_loop rec w m s rest (i + 1) v1) as [[l2 v2]|] eqn:El; [|discriminate].
+    inversion H; subst. apply Forall_app. split.
+    + apply (step_ok rec Hk m s sy d i v l1 v1 Hf); [|exact Es].
+      specialize (Hnth O d eq_refl). rewrite Nat.add_0_r in Hnth. exact Hnth.
+    + apply (IH (i + 1) v1 l2 v'); [|exact El].
+      intros k d0 Hk0. specialize (Hnth (S k) d0 Hk0).
+      replace (N.to_nat (i + 1) + k)%nat with (N.to_nat i + S k)%nat by lia. exact Hnth.
+Qed.
+
+Lemma in_universe : forall m s sy, find_sym (sm_tab (get_mod w m)) s = Some sy -> In (m, s) (universe w).
+Proof.
+  intros m s sy H. unfold get_mod in H.
+  destruct (lookup m (sw_mods w)) as [md|] eqn:El.
+  - apply lookup_In in El. apply find_sym_some in H. destruct H as [Hin Hid].
+    unfold universe. apply in_flat_map. exists (m, md). split; [exact El|].
+    cbn [fst snd]. apply in_map_iff. exists sy. split; [rewrite Hid; reflexivity | exact Hin].
+  - cbn in H. discriminate.
+Qed.
+
+Lemma find_defs_mono : forall fuel, rec_mono (find_defs fuel w).
+Proof.
+  induction fuel as [|f IH]; intros m s v ls v' H; cbn [find_defs] in H.
+  - destruct (umem (m, s) v); [inversion H; subst; intros x Hx; exact Hx|].
+    destruct (find_sym (sm_tab (get_mod w m)) s); [discriminate | inversion H; subst; intros x Hx; exact Hx].
+  - destruct (umem (m, s) v); [inversion H; subst; intros x Hx; exact Hx|].
+    destruct (find_sym (sm_tab (get_mod w m)) s) as [sy|]; [|inversion H; subst; intros x Hx; exact Hx].
+    intros x Hx. apply (dl_mono _ IH _ _ _ _ _ _ _ H). right. exact Hx.
+Qed.
+
+Lemma find_defs_ok : forall fuel, rec_ok (find_defs fuel w).
+Proof.
+  induction fuel as [|f IH]; intros m s v ls v' H; cbn [find_defs] in H.
+  - destruct (umem (m, s) v); [inversion H; subst; constructor|].
+    destruct (find_sym (sm_tab (get_mod w m)) s); [discriminate | inversion H; subst; constructor].
+  - destruct (umem (m, s) v); [inversion H; subst; constructor|].
+    destruct (find_sym (sm_tab (get_mod w m)) s) as [sy|] eqn:Ef; [|inversion H; subst; constructor].
+    apply (dl_ok _ IH m s sy Ef (s_decls sy) 0 ((m, s) :: v) ls v'); [|exact H].
+    intros k d Hk. cbn. exact Hk.
+Qed.
+
+Lemma find_defs_total : forall fuel, rec_total fuel (find_defs fuel w).
+Proof.
+  induction fuel as [|f IH]; intros m s v Hle; cbn [find_defs].
+  - destruct (umem (m, s) v) eqn:Eu; [discriminate|].
+    destruct (find_sym (sm_tab (get_mod w m)) s) as [sy|] eqn:Ef; [|discriminate].
+    apply umem_false_In in Eu. pose proof (unseen2_cons (universe w) v (m, s) (in_universe m s sy Ef) Eu) as Hlt. exfalso.
+    apply (Nat.nlt_0_r (unseen2 (universe w) ((m, s) :: v))). eapply Nat.lt_le_trans; [exact Hlt | exact Hle].
+  - destruct (umem (m, s) v) eqn:Eu; [discriminate|].
+    destruct (find_sym (sm_tab (get_mod w m)) s) as [sy|] eqn:Ef; [|discriminate].
+    apply umem_false_In in Eu. pose proof (unseen2_cons (universe w) v (m, s) (in_universe m s sy Ef) Eu) as Hlt.
+    apply (dl_total f (find_defs f w) (find_defs_mono f) IH).
+    apply Nat.lt_succ_r. eapply Nat.lt_le_trans; [exact Hlt | exact Hle].
+Qed.
+
+Theorem goto_fragment_terminates : forall m s, goto_defs w m s <> None.
+Proof.
+  intros m s. unfold goto_defs.
+  destruct (find_defs (S (length (universe w))) w m s []) as [[ls v]|] eqn:E; [discriminate|].
+  exfalso. apply (find_defs_total (S (length (universe w))) m s []); [|exact E].
+  unfold unseen2. cbn [umem existsb negb].
+  assert (Hf : forall l : list usym, filter (fun _ : usym => true) l = l).
+  { induction l as [|x l IHl]; cbn [filter]; [reflexivity | rewrite IHl; reflexivity]. }
+  rewrite Hf. lia.
+Qed.
+
+Theorem goto_fragment_sound : forall m s ls, goto_defs w m s = Some ls -> Forall leaf_ok ls.
+Proof.
+  intros m s ls H. unfold goto_defs in H.
+  destruct (find_defs (S (length (universe w))) w m s []) as [[ls0 v]|] eqn:E; [|discriminate].
+  inversion H; subst. exact (find_defs_ok _ _ _ _ _ _ E).
+Qed.
+
+End Goto.
